@@ -55,6 +55,13 @@ def gen_case(rng, tier, i):
             "fill": {"X": fillv(rng), "Y": fillv(rng)},
             "call_boundary": rng.choice([None, None, "fill", "extend", {"X": "extend"}]),
             "data": rngdata(), "partner": rngdata() if vec else None}
+    if vec and rng.random() < 0.2:
+        # components of different types: an integer-typed component next to a float partner with non-integral values
+        # (what crosses an axis-swapping link must arrive unrounded); integral fill values keep numpy's own
+        # constant padding of an integer array exact
+        case["int_comp"] = True
+        case["data"] = [float(rng.randint(-16, 16)) for _ in case["data"]]
+        case["fill"] = {"X": float(rng.randint(-3, 3)), "Y": float(rng.randint(-3, 3))}
     return case
 
 
@@ -66,7 +73,8 @@ def build(case):
     grid = fg.make_grid(ds, tbl, case["boundary"], case["fill"])
     order = case["order"]
     shape = [ds.sizes[d] for d in order]
-    da = xr.DataArray(np.array(case["data"], dtype=float).reshape(shape), dims=order, name="q")
+    da = xr.DataArray(np.array(case["data"], dtype=np.int64 if case.get("int_comp") else float).reshape(shape),
+                      dims=order, name="q")
     partner = None
     if case["vec"]:
         other = "Y" if case["vec"] == "X" else "X"
